@@ -272,6 +272,8 @@ CHECKS = {
     'C12': {
         'level': 'model_checking',
         'jobs': [
+            C('inprocscn', 'TestInproc', 'TraceInproc', file='inproc', trivial_len=3, n={'quick': 300, 'thorough': 1500},
+              scn=[('MC_InprocScn', {'quick': ['InprocScn.cfg'], 'thorough': ['InprocScn.cfg']})]),
             T('MC_Inproc', 'Inproc.cfg'), C('inproc', 'TestInproc', 'TraceInproc'),
             {'type': 'custom', 'name': 'lock-static', 'fn': lock_static},   # lock bugs and lock-order cycles (two calls that wait for each other for ever)
             T('MC_Core', 'Core_C14_sync.cfg'),
@@ -521,6 +523,8 @@ CHECKS = {
     'C10': {
         'level': 'model_checking',
         'jobs': [
+            C('inprocscn', 'TestInproc', 'TraceInproc', file='inproc', trivial_len=3, n={'quick': 300, 'thorough': 1500},
+              scn=[('MC_InprocScn', {'quick': ['InprocScn.cfg'], 'thorough': ['InprocScn.cfg']})]),
             C('hsscn', 'TestHandshaker', 'TraceHandshaker', file='handshaker', trivial_len=3, n={'quick': 400, 'thorough': 2000},
               scn=[('MC_HsScn', {'quick': ['HsScn.cfg'], 'thorough': ['HsScn.cfg']})]),
             C('corescn', 'TestCore', 'TraceCore', file='core', n={'quick': 150, 'thorough': 1500},
@@ -552,6 +556,8 @@ CHECKS = {
     'C13': {
         'level': 'model_checking',
         'jobs': [
+            C('inprocscn', 'TestInproc', 'TraceInproc', file='inproc', trivial_len=3, n={'quick': 300, 'thorough': 1500},
+              scn=[('MC_InprocScn', {'quick': ['InprocScn.cfg'], 'thorough': ['InprocScn.cfg']})]),
             C('hsscn', 'TestHandshaker', 'TraceHandshaker', file='handshaker', trivial_len=3, n={'quick': 400, 'thorough': 2000},
               scn=[('MC_HsScn', {'quick': ['HsScn.cfg'], 'thorough': ['HsScn.cfg']})]),
             C('corescn', 'TestCore', 'TraceCore', file='core', n={'quick': 150, 'thorough': 1500},
@@ -569,6 +575,8 @@ CHECKS = {
     'C14': {
         'level': 'model_checking',
         'jobs': [
+            C('inprocscn', 'TestInproc', 'TraceInproc', file='inproc', trivial_len=3, n={'quick': 300, 'thorough': 1500},
+              scn=[('MC_InprocScn', {'quick': ['InprocScn.cfg'], 'thorough': ['InprocScn.cfg']})]),
             C('corescn', 'TestCore', 'TraceCore', file='core', n={'quick': 150, 'thorough': 1500},
               scn=[('MC_CoreScn', {'quick': ['CoreScn_as.cfg'], 'thorough': ['CoreScn_as.cfg', 'CoreScn_sy.cfg']})]),
             C('errors', 'TestErrorsReal', 'TraceErrors'),
